@@ -78,6 +78,20 @@ def run(ctx):
     for sc in gen.conv_threshold_scripts(rng):
         for nconv in (1, 2):
             add(0, gen.VARIANTS[cid % 4], 45, nconv, sc, 'threshold')
+    # several realizations in one run whose scripted likelihoods TIE across the realization boundary (the first evaluation of realization
+    # i + 1 equals the last one of realization i): the first evaluation of a realization has no predecessor and never counts as a pass
+    for j in range(ctx.budget(24, 200)):
+        sub = rng.fork('mr%d' % j)
+        x = -10.0 - sub.below(5)
+        r_ = sub.rint(2, 4)
+        nconv = sub.rint(1, 3)
+        maxit = sub.choice([15, 21, 25, 31, 50])
+        scripts = [[x] * 6 if sub.chance(0.7) else [x - 3.0, x - 1.0, x, x, x, x] for _ in range(r_)]
+        e = NETS[cid % 2]
+        line, meta = gen.gen_e2e(sub, cid, variant=gen.VARIANTS[cid % 4], types=('u', 'u'), edges=e, K=2, r=r_, maxit=maxit, nconv=nconv, seed=7, script=scripts, trace=1)
+        cases.append(line)
+        expect[cid] = (maxit, nconv, scripts, 'multi-realization tie')
+        cid += 1
     res = ctx.component('K-CTRL', cases, keys={'status', 'rep'})
     # real (unscripted) trajectories reaching CONVERGED: nconv small, long maxit
     real_cases = []
@@ -98,14 +112,20 @@ def run(ctx):
             if not rep:
                 continue
             n_eval += 1
-            want = oracles.spec_stop(maxit, nconv, script)
-            got = rep[0]
-            reasons[got[1]] = reasons.get(got[1], 0) + 1
-            same_L = (got[2] == want[2]) or (got[2] != got[2] and want[2] != want[2])
-            nontrivial.add((got[0], got[1], nconv))
-            if (got[0], got[1]) != (want[0], want[1]) or not same_L or not (1 <= got[0] <= maxit):
-                ctx.violation('stop-rule', 'scripted run stops at (%d, %s) but the documented rule gives (%d, %s)' % (got[0], got[1], want[0], want[1]),
-                              {'case': cases[c], 'maxit': maxit, 'nconv': nconv, 'likelihoods': script, 'observed': got[:3], 'expected': want})
+            # one script per realization (multi-realization cases), or the single script of realization 0
+            per_real = script if (script and isinstance(script[0], list)) else [script]
+            for ri, sc in enumerate(per_real):
+                if ri >= len(rep):
+                    break
+                want = oracles.spec_stop(maxit, nconv, sc)
+                got = rep[ri]
+                reasons[got[1]] = reasons.get(got[1], 0) + 1
+                same_L = (got[2] == want[2]) or (got[2] != got[2] and want[2] != want[2])
+                nontrivial.add((got[0], got[1], nconv))
+                if (got[0], got[1]) != (want[0], want[1]) or not same_L or not (1 <= got[0] <= maxit):
+                    ctx.violation('stop-rule', 'scripted run, realization %d, stops at (%d, %s) but the documented rule gives (%d, %s)' % (ri, got[0], got[1], want[0], want[1]),
+                                  {'case': cases[c], 'maxit': maxit, 'nconv': nconv, 'likelihoods': sc, 'observed': got[:3], 'expected': want})
+                    break
     if res2:
         for k, line in enumerate(real_cases):
             tr = res2['impl'].get('E %d' % (100000 + k))
